@@ -283,7 +283,7 @@ def run_mp_shim(task):
                             fails.append({"prop": "C11", "kind": "reused_solver_get_statistics_raised",
                                           "detail": where + ": " + out["stats_error"]})
                     for f in fails:
-                        add_fail(f, case, {"history": [x if isinstance(x, str) else list(x) for x in plan], "call": k,
+                        add_fail(f, case, {"history": [x if isinstance(x, str) else list(x) for x in plan], "call_no": k + 1,
                                            "ovar": ops[1][1]})
         except Exception as e:
             add_fail({"prop": "C11", "kind": "reuse_history_raised:" + type(e).__name__, "detail": str(e)[:300]}, case, {})
